@@ -43,6 +43,13 @@ def oracle_model(res, ast, m, rng, n_env, cap, cfg=False, first_envs=()):
         doc, m2 = roundtrip(m, cfg)
     except Exception as e:
         return f"round trip raised {type(e).__name__}: {e}"
+    def merged(p):
+        """an All-like node whose set() of arguments merged two of them (value < number of children)"""
+        return [x.id for x in all_nodes(p) if not is_var(x) and isinstance(x, pg.All) and x.value != len(x.propositions)]
+    if not is_var(m2) and merged(m2) and not merged(m):
+        # finding D15, evaluation face: two children with distinct generated ids (they differed only in the sign ARGUMENT)
+        # come back with one id, and All's len(set(...)) drops
+        return f"D15-merge: after the round trip All-like node(s) {merged(m2)} list two children under one generated id"
     l1 = [(l.id, l.bounds.as_tuple()) for l in leaves_of(m)]
     l2 = [(l.id, l.bounds.as_tuple()) for l in leaves_of(m2)] if not is_var(m2) else [(m2.id, m2.bounds.as_tuple())]
     if l1 != l2:
@@ -148,7 +155,10 @@ def run(res, tier, seed):
         if nontrivial(ast):
             res.nt(canon(m)); res.count("nontrivial")
         problem = oracle_model(res, ast, m, rng, 8 if tier == "quick" else 25, 0 if tier == "quick" else 300)
-        if problem:
+        if problem and problem.startswith("D15-merge") and d15_nodes(m):
+            res.count("main_stream_D15_merge")
+            res.known_finding("D15", f"generated ids are not stable under the JSON round trip when the sign was passed explicitly (every negate()/Not result): e.g. {m!r}: {problem}"[:420])
+        elif problem:
             res.violation("oracle", f"JSON round trip of {m!r}: {problem}", {"op": "roundtrip", "model": ast_json(ast), "cfg": False, "problem": problem})
         add_corr(m, False)
         res.sample({"model": repr(m), "json": json.dumps(m.to_json())[:300]})
